@@ -1367,6 +1367,18 @@ fn explore(case: Arc<Case>, args: Arc<Args>) {
             let newf: Vec<String> = after.difference(&before).map(|p| p.display().to_string()).collect();
             let mut g = pg.lock().unwrap_or_else(|e| e.into_inner());
             let iter = g.iter;
+            // the H2 protocol trace of the failed execution up to the failure
+            let failed_trace = salsa::verif_take_proto_trace();
+            if let Some(d) = &args.trace_dir {
+                let p = sched_dir(d).join(format!("failed-{}-{}-{:05}.h2", case.id, args.sched, iter));
+                if let Ok(f) = std::fs::File::create(&p) {
+                    let mut f = std::io::BufWriter::new(f);
+                    for l in &failed_trace {
+                        let _ = writeln!(f, "{l}");
+                    }
+                    println!("T {iter} failed_trace={}", p.display());
+                }
+            }
             g.iter += 1;
             g.failures += 1;
             println!(
